@@ -179,12 +179,6 @@ namespace vh {
       chai.add(fun([this]() -> const std::vector<Boxed_Value> & { return c_vec; }), "cref_vec");
       chai.add(fun([this]() -> const std::map<std::string, Boxed_Value> & { return c_map; }), "cref_map");
       chai.add(fun([]() -> const int { return 5; }), "cret_int");
-      chai.add(vector_conversion<std::vector<int>>());
-      {
-        auto m = std::make_shared<Module>();
-        bootstrap::standard_library::vector_type<std::vector<int>>("VectorInt", *m);
-        chai.add(m);
-      }
       chai.eval("def out(x) { hout(to_string(x)) }");
     }
 
